@@ -47,7 +47,9 @@ Causes == {"none", "badsig", "expired", "missing", "unauth", "badlinksig", "thr"
            \* the failing step is not the last one: a second step, after it, passes all its checks
            "rule_first_of_two",
            \* two steps, the SECOND one's link is missing (its functionary is the first step's, or another one)
-           "missing_second_same", "missing_second_other"}
+           "missing_second_same", "missing_second_other",
+           \* the two links of a threshold-2 step disagree AND were recorded with different hash algorithms
+           "disagree_alg"}
 
 Sub(exp) ==
   LayoutD(<<GoodSig("k1")>>, exp, <<"k3">>,
@@ -63,8 +65,8 @@ Layout(cause, insps) ==
           IF cause = "expired" THEN -10 ELSE 1000,
           <<"k1", "k2", "k3">>,
           <<StepD("s1",
-                  IF cause \in {"thr", "disagree"} \cup Surplus THEN <<"k1", "k2">> ELSE <<"k1">>,
-                  IF cause \in {"thr", "disagree"} THEN 2 ELSE 1,
+                  IF cause \in {"thr", "disagree", "disagree_alg"} \cup Surplus THEN <<"k1", "k2">> ELSE <<"k1">>,
+                  IF cause \in {"thr", "disagree", "disagree_alg"} THEN 2 ELSE 1,
                   << >>,
                   CASE cause \in {"rule", "subok_rule", "rule_first_of_two"} -> <<Simple("DISALLOW", <<"*">>)>>
                     [] cause = "rule_match_insp" -> <<MatchR(<<"*">>, "P", "i1"), MatchR(PA, "M", "i1"), Simple("DISALLOW", <<"*">>)>>
@@ -81,6 +83,8 @@ Files(cause) ==
     [] cause = "badlinksig" -> <<Entry(<< >>, "s1", "k1", LinkD("s1", <<BadSig("k1")>>, {}, ProdA))>>
     [] cause = "disagree"   -> <<Entry(<< >>, "s1", "k1", LinkD("s1", <<GoodSig("k1")>>, {}, ProdA)),
                                  Entry(<< >>, "s1", "k2", LinkD("s1", <<GoodSig("k2")>>, {}, {Art(PA, "h2")}))>>
+    [] cause = "disagree_alg" -> <<Entry(<< >>, "s1", "k1", LinkD("s1", <<GoodSig("k1")>>, {}, ProdA)),
+                                   Entry(<< >>, "s1", "k2", LinkD("s1", <<GoodSig("k2")>>, {}, {Art(PA, "s512:h2")}))>>
     [] cause = "subfail"    -> <<Entry(<< >>, "s1", "k1", Sub(-10)),
                                  Entry(<<"s1.k1">>, "in1", "k3", LinkD("in1", <<GoodSig("k3")>>, {}, ProdA))>>
     [] cause \in Surplus ->
